@@ -6,28 +6,29 @@ import (
 	"testing"
 
 	"github.com/tinode/chat/server/auth"
+	"github.com/tinode/chat/server/db/vfmem"
 )
 
 func TestVfSmoke(t *testing.T) {
 	e := vfBoot(vfConfig{Push: true})
 	ua, ta := vfMkUser(auth.LevelAuth, map[string]any{"fn": "alice"}, nil)
-	ub, tb := vfMkUser(auth.LevelAuth, map[string]any{"fn": "bob"}, nil)
 	a := e.connect("a", ua, ta, false)
-	b := e.connect("b", ub, tb, false)
-	f := a.req("sub", map[string]any{"topic": "me"})
-	t.Log("sub me:", frameStr(f))
-	f = a.req("sub", map[string]any{"topic": "new1", "set": map[string]any{"desc": map[string]any{"public": "x"}}})
-	t.Log("sub new:", frameStr(f))
+	a.req("sub", map[string]any{"topic": "me"})
+	f := a.req("sub", map[string]any{"topic": "new1", "set": map[string]any{"desc": map[string]any{"public": "x"}}})
 	topic := f.str("topic")
-	f = b.req("sub", map[string]any{"topic": topic})
-	t.Log("b sub:", frameStr(f))
-	f = a.req("pub", map[string]any{"topic": topic, "content": "hello", "noecho": true})
-	t.Log("pub:", frameStr(f))
-	if !e.vfQuiesce() {
-		t.Fatal("no quiescence")
+	a.req("pub", map[string]any{"topic": topic, "content": "hello", "noecho": true})
+	e.vfQuiesce()
+	b := vfmem.A.Snapshot()
+	if err := vfmem.A.Restore(b); err != nil {
+		t.Fatal("restore:", err, string(b))
 	}
-	for _, fr := range b.all() {
-		t.Log("b:", fr.Raw)
+	var nu, nt, ns, nm int
+	vfmem.A.View(func(db *vfmem.DB) { nu, nt, ns, nm = len(db.Users), len(db.Topics), len(db.Subs), len(db.Msgs[topic]) })
+	if nu != 1 || nt != 2 || ns != 3 || nm != 1 {
+		t.Fatal("restore lost rows", nu, nt, ns, nm)
 	}
-	t.Log("qstats", vfQStats, "push", e.push.count())
+	f = a.req("pub", map[string]any{"topic": topic, "content": "again"})
+	if f.code() != 202 || f.params()["seq"].(float64) != 2 {
+		t.Fatal("publish after restore", f.Raw)
+	}
 }
